@@ -330,3 +330,68 @@ pub fn topo_named(cell: &Cell, name: &str) -> Topo {
 }
 
 pub const TOPOLOGIES: &[&str] = &["L1", "L2", "L3", "silent-mid", "silent-target", "every-other", "dup", "ecmp"];
+
+// ---------------------------------------------------------------------------------------------
+// Direct channel access (no strategy): real `Channel<SimSocket>` dispatch / receive path.
+
+use trippy_core::verif::{Channel, ChannelConfig};
+use trippy_core::{PacketSize, PayloadPattern, Sequence, TypeOfService};
+
+pub fn channel_config(cell: &Cell, p: &TraceParams) -> ChannelConfig {
+    ChannelConfig {
+        privilege_mode: if cell.privileged {
+            PrivilegeMode::Privileged
+        } else {
+            PrivilegeMode::Unprivileged
+        },
+        protocol: cell.protocol(),
+        source_addr: cell.src(),
+        target_addr: cell.dst(),
+        packet_size: PacketSize(p.packet_size),
+        payload_pattern: PayloadPattern(p.pattern),
+        initial_sequence: Sequence(p.initial_sequence),
+        tos: TypeOfService(p.tos),
+        icmp_extension_parse_mode: if cell.ext {
+            IcmpExtensionParseMode::Enabled
+        } else {
+            IcmpExtensionParseMode::Disabled
+        },
+        read_timeout: p.read_timeout,
+        tcp_connect_timeout: p.tcp_connect_timeout,
+    }
+}
+
+/// Connect a real channel over the (already installed) simulated world.
+pub fn make_channel(cell: &Cell, p: &TraceParams) -> Result<Channel<SimSocket>, trippy_core::Error> {
+    Channel::<SimSocket>::connect(&channel_config(cell, p))
+}
+
+/// Build the probe the strategy would build for this cell (harness-side restatement of the
+/// documented strategies; used only where the real allocator is not in the loop, e.g. C11/C13).
+pub fn make_probe(cell: &Cell, p: &TraceParams, seq: u16, ttl: u8, round: usize) -> trippy_core::Probe {
+    use trippy_core::{Flags, Port, RoundId, TimeToLive, TraceId};
+    let round_port = ((usize::from(p.initial_sequence) + round) % usize::from(u16::MAX)) as u16;
+    let (sport, dport, id, flags) = match (cell.proto, cell.strategy, cell.ports) {
+        (Proto::Icmp, ..) => (0, 0, p.trace_id, Flags::empty()),
+        (Proto::Udp, MultipathStrategy::Classic, Ports::FixedDest) => (seq, FIXED_DPORT, 0, Flags::empty()),
+        (Proto::Udp, MultipathStrategy::Classic, _) => (FIXED_SPORT, seq, 0, Flags::empty()),
+        (Proto::Udp, MultipathStrategy::Paris, Ports::FixedSrc) => (FIXED_SPORT, round_port, 0, Flags::PARIS_CHECKSUM),
+        (Proto::Udp, MultipathStrategy::Paris, Ports::FixedDest) => (round_port, FIXED_DPORT, 0, Flags::PARIS_CHECKSUM),
+        (Proto::Udp, MultipathStrategy::Paris, _) => (FIXED_SPORT, FIXED_DPORT, 0, Flags::PARIS_CHECKSUM),
+        (Proto::Udp, MultipathStrategy::Dublin, Ports::FixedSrc) => (FIXED_SPORT, round_port, seq, Flags::DUBLIN_IPV6_PAYLOAD_LENGTH),
+        (Proto::Udp, MultipathStrategy::Dublin, Ports::FixedDest) => (round_port, FIXED_DPORT, seq, Flags::DUBLIN_IPV6_PAYLOAD_LENGTH),
+        (Proto::Udp, MultipathStrategy::Dublin, _) => (FIXED_SPORT, FIXED_DPORT, seq, Flags::DUBLIN_IPV6_PAYLOAD_LENGTH),
+        (Proto::Tcp, _, Ports::FixedSrc) => (FIXED_SPORT, seq, 0, Flags::empty()),
+        (Proto::Tcp, ..) => (seq, FIXED_DPORT, 0, Flags::empty()),
+    };
+    trippy_core::Probe {
+        sequence: Sequence(seq),
+        identifier: TraceId(id),
+        src_port: Port(sport),
+        dest_port: Port(dport),
+        ttl: TimeToLive(ttl),
+        round: RoundId(round),
+        sent: std::time::SystemTime::now(),
+        flags,
+    }
+}
